@@ -220,6 +220,11 @@ let () =
              | Some kf ->
                  let b x = if x then 1 else 0 in
                  Printf.printf "writable=%d render=%d wf=%d roundtrip=%d\n" (b (writable kf)) (b (chk_render kf)) (b (chk_wf kf)) (b (chk_roundtrip kf)))
+        | ["freenull"] -> print_endline "rc=0"
+        | ["tool"; cmd; arg; dl; cm] ->
+            let f = (match cmd with "show" -> tool_show | "syntax" -> tool_syntax | _ -> tool_cat) in
+            let r = f (!w).w_tree (dec arg) (dec dl) (dec cm) in
+            Printf.printf "exit=%d stdout=%s err=%s\n" (int_of_n r.to_exit) (enc r.to_stdout) (enc_opt r.to_errline)
         | ["grammar"; o; path; dl; cm; ast] ->
             let (s', r) = grammar_cmd (!w).w_store (nat_of_int (int_of_string o)) dl cm ast path in
             w := { !w with w_store = s' }; print_endline r
